@@ -33,6 +33,33 @@ def _consts():
     return cap, waits[0], catches_exception, fast_default
 
 
+def _write_init_accessors():
+    """which methods of the module `writeInitParams` looks up and calls: the string prefixes of its
+    `getattr(self, '<prefix>' + pname, ...)` look-ups, and the names of methods it calls on `self` directly"""
+    from frappy.modulebase import Module
+    tree = ast.parse(textwrap.dedent(inspect.getsource(Module.writeInitParams)))
+    prefixes, selfcalls = set(), set()
+    for node in ast.walk(tree):
+        if isinstance(node, ast.Call) and isinstance(node.func, ast.Name) and node.func.id == 'getattr' and len(node.args) >= 2:
+            a = node.args[1]
+            if isinstance(a, ast.BinOp) and isinstance(a.op, ast.Add) and isinstance(a.left, ast.Constant) and isinstance(a.left.value, str):
+                prefixes.add(a.left.value)
+            elif isinstance(a, ast.Constant) and isinstance(a.value, str):
+                prefixes.add(a.value)
+            elif isinstance(a, ast.JoinedStr):
+                prefixes.add(''.join(v.value for v in a.values if isinstance(v, ast.Constant)))
+            else:
+                prefixes.add('?')       # a look-up this extraction does not understand: the table fact below fails
+        if isinstance(node, ast.Call) and isinstance(node.func, ast.Attribute) and isinstance(node.func.value, ast.Name) \
+                and node.func.value.id == 'self':
+            selfcalls.add(node.func.attr)
+    return sorted(prefixes), sorted(selfcalls)
+
+
+def _lstrs(l):
+    return '[' + ', '.join('"%s"' % x.replace('\\', '\\\\').replace('"', '\\"') for x in l) + ']'
+
+
 def generate():
     from frappy.modulebase import Module
     from frappy.modules import Readable
@@ -51,4 +78,6 @@ def generate():
         f'def pollMinReadable : Nat := {math.floor(poll_dt.min * TICKS)}',
         f'def pollMinIO : Nat := {math.floor(io_dt.min * TICKS)}',
         f'def callPollFuncCatchesException : Bool := {lbool(catches)}',
+        f'def writeInitParamsLookups : List String := {_lstrs(_write_init_accessors()[0])}',
+        f'def writeInitParamsSelfCalls : List String := {_lstrs(_write_init_accessors()[1])}',
     ]
